@@ -161,7 +161,8 @@ def call_oracle(clause, case):
 
 def _run_shard(task):
     """Runs in a forked worker.  Returns a plain dict."""
-    (prop, mod_name, cname, shard, n, seed, tier, deadline, known_keys, shrink_cap) = task
+    (prop, mod_name, cname, shard, n, seed, tier, deadline, known_keys, shrink_cap) = task[:10]
+    trace_path = task[10] if len(task) > 10 else None
     t0 = time.time()
     res = dict(clause=cname, shard=shard, evaluations=0, labels={}, nt=set(), samples=[],
                failure=None, known={}, skipped_budget=0, error=None, wall=0.0, seed=seed,
@@ -181,6 +182,9 @@ def _run_shard(task):
                 state['capped'] = True
                 return
             res['evaluations'] += 1
+            if trace_path:
+                with open(trace_path, 'w') as tf:      # last case started (read back if this process dies)
+                    tf.write(jdump(case))
             try:
                 labels = call_oracle(clause, case)
             except Violation as v:
@@ -253,6 +257,60 @@ def _run_shard(task):
 
 # --------------------------------------------------------------------------- property run
 
+def _child(conn, task):
+    try:
+        conn.send(_run_shard(task))
+    finally:
+        conn.close()
+
+
+def _run_tasks(tasks):
+    """run shards in forked processes, at most NPROC at a time; returns (results, [(task, exitcode) of workers that died])"""
+    ctx = mp.get_context('fork')
+    pending = list(tasks)
+    running = []
+    results, crashed = [], []
+    while pending or running:
+        while pending and len(running) < NPROC:
+            t = pending.pop(0)
+            a, b = ctx.Pipe(duplex=False)
+            pr = ctx.Process(target=_child, args=(b, t))
+            pr.start()
+            b.close()
+            running.append((pr, a, t))
+        still = []
+        progressed = False
+        for pr, a, t in running:
+            got = None
+            if a.poll(0):
+                try:
+                    got = a.recv()
+                except EOFError:
+                    got = None
+                pr.join()
+                a.close()
+                if got is None:
+                    crashed.append((t, pr.exitcode))
+                else:
+                    results.append(got)
+                progressed = True
+            elif not pr.is_alive():
+                # died without sending anything (poll once more: data may have arrived just before exit)
+                if a.poll(0.05):
+                    still.append((pr, a, t))
+                    continue
+                pr.join()
+                a.close()
+                crashed.append((t, pr.exitcode))
+                progressed = True
+            else:
+                still.append((pr, a, t))
+        running = still
+        if not progressed:
+            time.sleep(0.02)
+    return results, crashed
+
+
 def run_property(prop, mod_name, tier, seed):
     from . import build
     t0 = time.time()
@@ -287,9 +345,29 @@ def run_property(prop, mod_name, tier, seed):
                               tier, deadline, set(known_open), shrink_cap))
     # interleave clauses so that all make progress before the wall budget
     tasks.sort(key=lambda t: (t[3], t[2]))
-    ctx = mp.get_context('fork')
-    with ctx.Pool(min(NPROC, len(tasks)), maxtasksperchild=1) as pool:
-        results = pool.map(_run_shard, tasks, chunksize=1)
+    results, crashed = _run_tasks(tasks)
+    crash_reports = []
+    for task, code in crashed:
+        # a worker died (segfault/abort in compiled code, os._exit): run that shard again with the current case traced
+        tp = os.path.join(VERIF, '.cache', 'trace-%s-%s-%d-%d.json' % (prop, task[2], task[3], os.getpid()))
+        os.makedirs(os.path.dirname(tp), exist_ok=True)
+        if os.path.exists(tp):
+            os.remove(tp)
+        r2, c2 = _run_tasks([tuple(task) + (tp,)])
+        case = None
+        if os.path.exists(tp):
+            try:
+                case = json.load(open(tp))
+            except Exception:
+                case = None
+            os.remove(tp)
+        if c2 and case is not None:
+            crash_reports.append((task[2], case, 'worker process died (exit code %s) while evaluating this case: the code under '
+                                  'test crashed the interpreter' % c2[0][1], task[5], task[3]))
+        elif c2:
+            crash_reports.append((task[2], None, 'worker died (exit code %s) before evaluating any case' % c2[0][1], task[5], task[3]))
+        else:
+            results.extend(r2)          # did not crash again: use the second run's result
 
     # ---- aggregate
     per = {}
@@ -351,6 +429,22 @@ def run_property(prop, mod_name, tier, seed):
         if ev == 0 and not a['errors']:
             harness.append('clause %s: no case was evaluated' % c.name)
 
+    seen_crash = set()
+    for cname, case, detail, sseed, shard in crash_reports:
+        if case is not None and cname in seen_crash:
+            continue
+        seen_crash.add(cname)
+        if case is None:
+            harness.append('clause %s shard %d: %s' % (cname, shard, detail))
+            continue
+        nviol += 1
+        per[cname]['failures'].append(dict(case=case, detail=detail, key=None))
+        path = os.path.join(outdir('replays'), '%s-%s-%d-crash.json' % (prop, cname, seed))
+        with open(path, 'w') as fh:
+            json.dump(dict(property=prop, clause=cname, case=case, detail=detail, key=None, seed=seed, tier=tier), fh, indent=1, default=_jdefault)
+        out.append('VIOLATION property=%s replay=%s' % (prop, path))
+        out.append('  clause=%s key=None detail=%s' % (cname, detail))
+
     for k, text in known_open.items():
         out.append('KNOWN-FINDING: property=%s %s [key=%s; met %d times this run, excluded from the search]'
                    % (prop, text, k, seen_known.get(k, 0)))
@@ -408,17 +502,37 @@ def replay(prop, mod_name, path):
     rec = json.load(open(path))
     clause = [c for c in mod.CLAUSES if c.name == rec['clause']][0]
     known_open, _ = load_known(prop)
-    try:
-        labels = call_oracle(clause, rec['case'])
-    except Violation as v:
-        if v.key is not None and v.key in known_open:
-            print('KNOWN-FINDING: property=%s %s [key=%s]' % (prop, known_open[v.key], v.key))
-            return 0
+    def _do():
+        try:
+            labels = call_oracle(clause, rec['case'])
+        except Violation as v:
+            if v.key is not None and v.key in known_open:
+                print('KNOWN-FINDING: property=%s %s [key=%s]' % (prop, known_open[v.key], v.key))
+                return 0
+            print('VIOLATION property=%s replay=%s' % (prop, os.path.abspath(path)))
+            print('  clause=%s key=%s detail=%s' % (clause.name, v.key, v.detail[:2000]))
+            return 1
+        print('%s replay held: clause=%s labels=%s' % (prop, clause.name, sorted(labels or ())))
+        return 0
+
+    # in a child process, so that a case that crashes the interpreter is still reported
+    sys.stdout.flush()
+    pid = os.fork()
+    if pid == 0:
+        code = 2
+        try:
+            code = _do()
+            sys.stdout.flush()
+        except BaseException:
+            traceback.print_exc()
+        finally:
+            os._exit(code)
+    _, status = os.waitpid(pid, 0)
+    if os.WIFSIGNALED(status):
         print('VIOLATION property=%s replay=%s' % (prop, os.path.abspath(path)))
-        print('  clause=%s key=%s detail=%s' % (clause.name, v.key, v.detail[:2000]))
+        print('  clause=%s key=None detail=the replayed case crashed the interpreter (signal %d)' % (clause.name, os.WTERMSIG(status)))
         return 1
-    print('%s replay held: clause=%s labels=%s' % (prop, clause.name, sorted(labels or ())))
-    return 0
+    return os.WEXITSTATUS(status)
 
 
 def main(argv=None):
